@@ -2,7 +2,7 @@
    Statements only; proofs in c15/C15_VarioProofs.v (kernel = pair enumeration, generic number type,
    from the .pyx translated on every run) and c08/C08_Math.v (meaning of the enumeration over R). *)
 From Coq Require Import Reals ZArith List Bool Permutation.
-From GS Require Import Num Loops Cellwise RInst Estimator_gen C15_VarioSpec C15_VarioProofs C15_DirSpec C15_DirProofs C08_Math.
+From GS Require Import Num Loops Cellwise RInst Estimator_gen C15_VarioSpec C15_VarioProofs C15_DirSpec C15_DirProofs C08_Math C08_Sep2D.
 Import ListNotations.
 
 (* 1. the kernels as run (identity schedule) ARE the enumeration of all pairs j<k, bin by bin;
@@ -39,6 +39,22 @@ Theorem C08_break_harmless :
     selected O pos direction tol bw true dist j k d = selected O pos direction tol bw false dist j k d.
 Proof. exact @break_harmless. Qed.
 Print Assumptions C08_break_harmless.
+
+(* in the plane the premise of C08_break_harmless follows from the separation test vario_estimate applies
+   (arccos(min(|u1.u2|,1)) >= 2*angles_tol, 0 < angles_tol <= pi/2) for every pair of DISTINCT points; stated on the
+   translated dir_test / dist_euclid at the real instance.  (Coincident points pass every direction test: that is the
+   known finding; 3-D is probed only.) *)
+Theorem C08_separated_2d : forall ora pos direction tol bw j k d1 d2,
+  (0 < tol <= PI / 2)%R ->
+  (aget2 0 direction d1 0 * aget2 0 direction d1 0 + aget2 0 direction d1 1 * aget2 0 direction d1 1 = 1)%R ->
+  (aget2 0 direction d2 0 * aget2 0 direction d2 0 + aget2 0 direction d2 1 * aget2 0 direction d2 1 = 1)%R ->
+  (2 * tol <= acos (Rmin (Rabs (aget2 0 direction d1 0 * aget2 0 direction d2 0
+                               + aget2 0 direction d1 1 * aget2 0 direction d2 1)) 1))%R ->
+  (0 < dist_euclid (Rops ora) 2 pos j k)%R ->
+  dir_test (Rops ora) 2 pos (dist_euclid (Rops ora) 2 pos j k) direction tol bw k j d1 = true ->
+  dir_test (Rops ora) 2 pos (dist_euclid (Rops ora) 2 pos j k) direction tol bw k j d2 = false.
+Proof. exact separated_2d. Qed.
+Print Assumptions C08_separated_2d.
 
 (* 2. the enumerated list is exactly the set of unordered pairs *)
 Theorem C08_pairs_are_all_pairs : forall n j k, In (j, k) (pairs n) <-> (j < k < n)%nat.
